@@ -27,5 +27,7 @@ macro_rules! registry {
 
 registry! {
     c01::C01,
+    c07::C07,
+    c08::C08,
     c10::C10,
 }
